@@ -59,6 +59,14 @@ WindowCovered(s, d, ci) == LandFirst2(s, d) < -1 /\ LandLast2(s, d, ci) >= 2 * c
 DepthRule(s) == s \div 2 + 2                       \* the code (after the repair)
 DepthRuleCeil(s) == (s + 1) \div 2 + 1             \* named historical rule: ceil(s / 2) + 1 - one pixel short for even s
 
+(* ---- exclusion distance versus the margin of a chunk's landscape (the known finding C20-side-maximum-across-chunk-border) ----
+   One axis, integer positions.  A main peak at x and a weaker side maximum at y, |x - y| <= r (the exclusion distance in pixels):
+   on the whole image the side maximum is suppressed.  Chunk i reports y iff it owns y and does NOT see x inside its landscape,
+   which extends mg pixels beyond its core on both sides.  The side maximum is suppressed under every chunking iff r <= mg. *)
+SeesInLandscape(c, i, mg, x) == StartOf(c, i) - mg <= x /\ x < StartOf(c, i) + c[i] + mg
+OwnerOf(c, y) == CHOOSE i \in 1..Len(c) : StartOf(c, i) <= y /\ y < StartOf(c, i) + c[i]
+SideSuppressed(c, mg, x, y) == SeesInLandscape(c, OwnerOf(c, y), mg, x)
+
 (* exclusion region of find_maxima: a BALL of radius r (r10 = 10 r) in pixels, not the enclosing cube *)
 CeilDiv10(r10) == (r10 + 9) \div 10
 InBall(o, r10) == 100 * (o[1]*o[1] + o[2]*o[2] + o[3]*o[3]) <= r10 * r10
